@@ -15,6 +15,8 @@
      the table scan (`index_scan_eq_filter`);
    * index maintenance on INSERT / UPDATE / DELETE and population at CREATE INDEX keep every index consistent with its
      table (`maintain_preserves_consistency`, `populate_consistent`);
+   * a key deleted and inserted again inside one transaction is found through the index afterwards
+     (`reinsert_after_own_delete_indexed`, `insert_into_free_key_indexed`);
    * the answer does not depend on the statistics the choice among plans was made with (`stats_irrelevant`).
 
   Hypotheses are explicit and decidable: `wfStore` (stored rows have the width and the types of their table, NOT NULL
@@ -272,6 +274,59 @@ theorem populate_consistent (cols : List Nat) (rows : Rows) (hu : KeysUnique col
   have := populate_step cols rows { cols := cols, entries := [] } [] rfl
     ⟨by simp [KeysDistinct], by simp [livePairs, Index.live, rowPairs]⟩ (by simpa using hu)
   simpa [populate] using this
+
+/-! ## Keys re-used inside one transaction (entries with transaction stamps) -/
+
+/-- DELETE of the row with key `k` and INSERT of a row with the same key in ONE transaction (a session, a batch): the
+    delete mark the transaction itself set frees the entry, the new row takes it over.  The transaction — and, once it
+    has committed, every later reader (`reader_after_commit`) — finds exactly the new row under `k` through the index,
+    and every other key as before. -/
+theorem reinsert_after_own_delete_indexed (committed aborted : List Nat) (tid : Nat) (k : List Value) (rid rid' : Nat)
+    (es : List TEntry) (hkeys : (es.map (·.key)).Nodup) (hrow : (k, rid) ∈ tPairs committed tid es)
+    (p : List Value × Nat) :
+    p ∈ tPairs committed tid (tInsert {} committed aborted tid k rid' (tDelete committed tid k es))
+      ↔ (p = (k, rid') ∨ (p ∈ tPairs committed tid es ∧ p.1 ≠ k)) :=
+  delete_then_insert_pairs committed aborted tid k rid rid' es hkeys hrow p
+
+/-- what the transaction sees of the index is what every later reader sees once the transaction has committed -/
+theorem reader_after_commit (committed : List Nat) (tid r : Nat) (es : List TEntry)
+    (hr : ∀ e ∈ es, e.xmin ≠ r ∧ e.xmax ≠ some r) : tPairs (tid :: committed) r es = tPairs committed tid es :=
+  view_after_commit committed tid r es hr
+
+/-- An inserted row always gets an index entry its transaction sees when the key is free: no entry under the key, an
+    entry with a delete mark (whoever set it — the transaction itself included), or the entry of a rolled-back INSERT. -/
+theorem insert_into_free_key_indexed (committed aborted : List Nat) (tid : Nat) (k : List Value) (rid' : Nat)
+    (es : List TEntry) (hfree : ∀ e ∈ es, e.key = k → aborted.contains e.xmin = true ∨ e.xmax.isSome = true) :
+    (k, rid') ∈ tPairs committed tid (tInsert {} committed aborted tid k rid' es) :=
+  insert_gets_entry committed aborted tid k rid' es hfree
+
+/-- one row with key 60, inserted by the committed transaction 0 -/
+def wT : List TEntry := [{ key := [.int 60], rid := 1, xmin := 0 }]
+
+/-- The seeded change "a delete mark counts only if the deleter committed": transaction 1 deletes the row with key 60
+    and inserts a row with key 60 — the old, marked entry is kept, the new row (row id 2) has no entry: after the commit
+    nobody finds it through the index. -/
+theorem reuseNeedsCommittedDelete_witness :
+    (([.int 60] : List Value), 2) ∉ tPairs [0] 1 (tInsert { reuseNeedsCommittedDelete := true } [0] [] 1 [.int 60] 2 (tDelete [0] 1 [.int 60] wT))
+      ∧ (([.int 60] : List Value), 2) ∈ tPairs [0] 1 (tInsert {} [0] [] 1 [.int 60] 2 (tDelete [0] 1 [.int 60] wT)) := by
+  decide
+
+/-- Shipped before 5b107bb: the entry of a rolled-back INSERT (transaction 5) carries no delete mark and was kept: the
+    row inserted afterwards under the same key had no entry. -/
+theorem keepsAbortedInsert_witness :
+    (([.int 60] : List Value), 2) ∉ tPairs [0] 6 (tInsert { keepsAbortedInsert := true } [0] [5] 6 [.int 60] 2 [{ key := [.int 60], rid := 1, xmin := 5 }])
+      ∧ (([.int 60] : List Value), 2) ∈ tPairs [0] 6 (tInsert {} [0] [5] 6 [.int 60] 2 [{ key := [.int 60], rid := 1, xmin := 5 }]) := by
+  decide
+
+/-- The listed finding KF-C06-index-entry-replaced, in the model as in the code: with one entry per key the re-insert
+    REPLACES the entry of the deleted row; if the transaction (1) is then rolled back, a later reader (9) sees the old
+    row in the table again but finds no entry for it. -/
+theorem reinsert_rolled_back_entry_lost_witness :
+    (([.int 60] : List Value), 1) ∈ tPairs [0] 9 wT
+      ∧ (([.int 60] : List Value), 1) ∉ tPairs [0] 9 (tInsert {} [0] [] 1 [.int 60] 2 (tDelete [0] 1 [.int 60] wT)) := by
+  decide
+
+example : (wT.map (·.key)).Nodup ∧ (([.int 60] : List Value), 1) ∈ tPairs [0] 1 wT := by decide
 
 /-! ## Witnesses: each flag of the models breaks the property on a concrete input -/
 
